@@ -1,6 +1,20 @@
-/- Helper lemmas for "updates preserve success". -/
+/- Helper lemmas for "updates preserve success" (C09 / C10).  The development is split over
+Vet/Lemmas/Preserve*.lean; this file collects it.
+
+* PreserveList     — `pick`/`keepIdx`/`applyTable`/`assoc?`
+* PreserveReq      — the required-entries map only grows; provenance of recorded bits
+* PreserveCrit     — minimal lists generate; certifying edges closed under implication
+* PreserveSearch   — walks are mode-independent (non-regenerating modes); `search` never panics
+* PreserveBuild    — `build` yields a graph iff nothing panics/conflicts; monotone in the records
+* PreserveStore    — the shape of `getStoreUpdates`, the store after `applyLocked`
+* PreserveExempt   — the exemption table under an update
+* PreserveRequired — `allRequired`/`requiredEntries`, soundness of recorded entries
+* PreserveEdge     — required records survive; the new store is a sub-store
+* PreserveResolve  — assembly
+-/
 import Vet.Props.Resolve
 import Vet.Props.C05
 import Vet.Model.Apply
+import Vet.Lemmas.PreserveResolve
 namespace Vet
 end Vet
